@@ -37,6 +37,7 @@ package main
 
 import (
 	"bytes"
+	"context"
 	"encoding/gob"
 	"fmt"
 	"net"
@@ -53,6 +54,7 @@ import (
 
 	"github.com/miekg/dns"
 	"github.com/semihalev/sdns/config"
+	"github.com/semihalev/sdns/internal/authority"
 	"github.com/semihalev/sdns/internal/verif/vlib"
 	"github.com/semihalev/sdns/middleware/resolver"
 )
@@ -141,6 +143,7 @@ type sim struct {
 	caseNum int
 
 	fetchProbe       func() // oracle hook: runs while the DNSKEY query is served
+	preLive          string // live trust set while the DNSKEY query was being served ("none": no query)
 	lastRevokedDelta int64  // increments of the "revoked" lifecycle counter in the last run
 }
 
@@ -346,7 +349,7 @@ func refOf(k *dns.DNSKEY) string {
 	if !ok {
 		return "?"
 	}
-	return fmt.Sprintf("%d.%d.%d", id, k.Flags, k.KeyTag())
+	return kref{id: id, flags: k.Flags, tag: k.KeyTag(), owner: ownerOf(k.Hdr.Name)}.String()
 }
 
 func (s *sim) obsState() string {
@@ -367,7 +370,7 @@ func (s *sim) obsState() string {
 		ta := tas[uint16(t)]
 		ref := refOf(ta.DNSKey)
 		if ta.DNSKey != nil && ta.DNSKey.KeyTag() != uint16(t) {
-			ref += fmt.Sprintf("@%d", t)
+			ref += fmt.Sprintf("#%d", t)
 		}
 		out = append(out, fmt.Sprintf("%s/%s/%d", ref, stNames[ta.State], (s.V-s.virt(ta.FirstSeen))/60))
 	}
@@ -410,7 +413,7 @@ func (s *sim) liveRefs() []kref {
 		if !ok {
 			id = -1
 		}
-		out = append(out, kref{id: id, flags: k.Flags, tag: k.KeyTag()})
+		out = append(out, kref{id: id, flags: k.Flags, tag: k.KeyTag(), owner: ownerOf(k.Hdr.Name)})
 	}
 	sort.Slice(out, func(i, j int) bool {
 		if out[i].tag != out[j].tag {
@@ -494,6 +497,7 @@ type runSpec struct {
 	fetch     []kref
 	signers   []kref
 	bad       []badSig
+	extras    []extra
 	fStateRd  bool
 	fTombRd   bool
 	fTombWr   bool
@@ -522,9 +526,11 @@ func (s *sim) run(sp *runSpec) string {
 	}
 	sc := &script{fail: sp.fetchNone}
 	if !sp.fetchNone {
-		sc.answer = buildAnswer(sp.fetch, sp.signers, sp.bad)
+		sc.answer = buildAnswer(sp.fetch, sp.signers, sp.bad, sp.extras...)
 	}
+	s.preLive = "none"
 	sc.hook = func() {
+		s.preLive = s.obsLive()
 		if s.fetchProbe != nil {
 			s.fetchProbe()
 		}
@@ -666,6 +672,10 @@ func exec(op string) vlib.Res {
 	case "restart":
 		S.r = nil
 		return vlib.Res{Impl: S.obs(), Oracle: "ok"}
+	case "boot":
+		// NewResolver alone: the process exists, its first AutoTA has not run yet
+		S.newProcess()
+		return vlib.Res{Impl: S.obs(), Oracle: S.orc.boot(S)}
 	case "damage":
 		// tomb|state: garbage; *-trunc: the existing gob stream cut in the middle
 		// (garbage when there is none); *-empty: truncated to zero length
@@ -696,6 +706,36 @@ func exec(op string) vlib.Res {
 			panic(err)
 		}
 		return vlib.Res{Impl: S.obs(), Oracle: "ok"}
+	case "probe":
+		// autota probe <fetch> <signers> [bad=..] [x=..]: a client-style validated lookup of ". DNSKEY"
+		// (CD=0) through the real Resolver with the CURRENT live trust set; the root serves the given answer.
+		if len(f) < 4 || S.r == nil {
+			return vlib.Res{Impl: "bad-op"}
+		}
+		sp := &runSpec{crash: -1, fetch: parseRefs(f[2]), signers: parseRefs(f[3])}
+		for _, x := range f[4:] {
+			if strings.HasPrefix(x, "bad=") {
+				sp.bad = parseBad(x[4:])
+			}
+			if strings.HasPrefix(x, "x=") {
+				sp.extras = parseExtras(x[2:])
+			}
+		}
+		cur.Store(&script{answer: buildAnswer(sp.fetch, sp.signers, sp.bad, sp.extras...)})
+		defer cur.Store(nil)
+		req := new(dns.Msg)
+		req.SetQuestion(".", dns.TypeDNSKEY)
+		req.SetEdns0(1232, true)
+		servers := &authority.Servers{Zone: "."}
+		servers.List = append(servers.List, authority.NewServer(srvAddr, authority.IPv4))
+		ctx, cancel := context.WithTimeout(context.Background(), 3*time.Second)
+		defer cancel()
+		resp, err := S.r.Resolve(ctx, req, servers, true, 30, 0, false, nil)
+		res := "refused"
+		if err == nil && resp != nil && resp.Rcode == 0 && len(resp.Answer) > 0 {
+			res = "answered ad=" + vlib.B(resp.AuthenticatedData)
+		}
+		return vlib.Res{Impl: res, Oracle: S.orc.probe(S, sp, err == nil && resp != nil && resp.Rcode == 0 && len(resp.Answer) > 0, err == nil && resp != nil && resp.AuthenticatedData), Tags: "nt,probe"}
 	case "killrun":
 		// autota killrun <fetch> <signers> <k>: restart, then a run in a real
 		// child process that is SIGKILLed on entry to its (k+1)-th rename
@@ -751,16 +791,25 @@ func exec(op string) vlib.Res {
 			if strings.HasPrefix(x, "bad=") {
 				sp.bad = parseBad(x[4:])
 			}
+			if strings.HasPrefix(x, "x=") {
+				sp.extras = parseExtras(x[2:])
+			}
 		}
 		pre := S.orc.before(S, sp)
 		outcome := S.run(sp)
 		verdict, tags := S.orc.after(S, sp, pre, outcome)
+		if len(sp.extras) > 0 {
+			tags += ",extra-rrsets"
+		}
+		if len(sp.bad) > 0 {
+			tags += ",bad-rrsig"
+		}
 		if S.strayTemp() && verdict == "ok" {
 			verdict = "FAIL sig=autota/atomic-write/temp-file-left-behind"
 		}
 		impl := S.obs()
 		if sp.crash < 0 {
-			impl = "res=" + outcome + " " + impl
+			impl = "res=" + outcome + " pre=" + S.preLive + " " + impl
 		}
 		return vlib.Res{Impl: impl, Oracle: verdict, Tags: tags}
 	}
